@@ -445,7 +445,7 @@ func run(t *rapid.T, test string, sc scenario) {
 			pairs, err := vlib.ParseLogfmtRecord([]byte(rest + "\n"))
 			if err != nil {
 				vlib.Discrep(t, sig, "C07 %s: attribute region %q is not key=value pairs: %v\nexpected merge: [%s]", desc, rest, err, vlib.Describe(vlib.Normalize(sources)))
-			} else if err := vlib.MatchLogfmtAttrs(pairs, vlib.Normalize(sources), false); err != nil {
+			} else if err := vlib.MatchLogfmtAttrsOrdered(pairs, vlib.Normalize(sources), false); err != nil {
 				vlib.Discrep(t, sig, "C07 %s: %v; attribute region %q\nexpected merge: [%s]", desc, err, rest, vlib.Describe(vlib.Normalize(sources)))
 			}
 		}
